@@ -80,3 +80,38 @@ Definition check_reread (c : dataset * Z * owrite * oread * oread * bool * bool)
     if negb bytes_same || aliased || negb (oread_same ord1 ord2) then 1
     else check_run (d, lvl, ow, ord2)
   end.
+
+(* ------------------------------------------------------------------ finite floats: repr text <-> double, decided here *)
+(* The codec model carries a finite float as its repr text.  Every float leaf is shipped as (repr text, exact double):
+   the text must be a decimal whose correctly rounded double is that double (float(repr(x)) == x, sign of zero from
+   the text), and a decoded float must be bit-identical to the original float with the same text. *)
+From Verif Require Import Lib.Decimal.
+
+Definition starts_minus (s : string) : bool :=
+  match s with String c _ => Ascii.eqb c "-"%char | EmptyString => false end.
+
+Definition repr_of_double (s : string) (d : dy) : bool :=
+  match parse_float s with
+  | Some q => is_nearest_double q d &&
+              match d with
+              | Dy m _ => Bool.eqb (starts_minus s) (m <? 0)
+              | DZero neg => Bool.eqb (starts_minus s) neg
+              | _ => false
+              end
+  | None => false
+  end.
+
+Fixpoint slookup (k : string) (l : list (string * dy)) : option dy :=
+  match l with
+  | [] => None
+  | (k', v) :: r => if String.eqb k k' then Some v else slookup k r
+  end.
+
+Definition floats_ok (orig dec : list (string * dy)) : bool :=
+  forallb (fun sd => repr_of_double (fst sd) (snd sd)) orig &&
+  forallb (fun sd => repr_of_double (fst sd) (snd sd)) dec &&
+  forallb (fun sd => match slookup (fst sd) orig with Some d => dy_eqb d (snd sd) | None => true end) dec &&
+  forallb (fun sd => match slookup (fst sd) orig with Some d => dy_eqb d (snd sd) | None => false end) orig.
+
+Definition check_attr3 (c : (tree * oenc * odec * odec * bool) * list (string * dy) * list (string * dy)) : Z :=
+  match c with (a, fo, fd) => if floats_ok fo fd then check_attr2 a else 1 end.
